@@ -144,7 +144,7 @@ CHECKS["C11"] = dict(
          "error raised on a mutation pool, and of file-mode errors after the same path was re-written, is the bounded stand-in.",
     design_ref="DESIGN.md 5/C11",
     note="assumed: token positions well-formed for the raw stream (contract of _tokenize), ordered ranges at known_range/starting_from call sites; "
-         "_decode_fstring_parts (escape decoding of f-string text) has an ASSUMED contract.",
+         "what an escape in f-string text decodes TO is not modelled (that a failing decode is reported at the part is proved).",
     technique="E1 postconditions on error constructors (z3) + raise-site enumeration",
 )
 CHECKS["C12"] = dict(
@@ -234,7 +234,7 @@ CHECKS["C10"] = dict(
          "patterns are checked exhaustively on short strings with the real `re` (bounded). ~29000 f-strings (prefix x quote x literal x field x layout) "
          "against tokenize/ast.parse of the running CPython are the bounded stand-in; five whole input classes are known findings.",
     design_ref="DESIGN.md 5/C10",
-    note="ASSUMED: hand transcription of CPython 3.12's f-string rules; what `re` does (Match contract); _decode_fstring_parts (escape decoding, ASSUMED contract) and the merging of adjacent Constants inside "
+    note="ASSUMED: hand transcription of CPython 3.12's f-string rules; what `re` does (Match contract); what escapes in f-string text decode to (opaque in the contract of _decode_fstring_parts) and the merging of adjacent Constants inside "
          "concatenate_strings (opaque loop: inner spans/values only by the stand-in). "
          "The mode machine (handle_fstring_progs, handle_end_progs, next_psuedo_matches, frame methods) IS verified from its bodies (E1). Known findings: "
          "doubled braces, '=' debug fields, \\N{...}, non-ASCII columns, multi-line format spec.",
